@@ -323,7 +323,8 @@ pub fn gen_grammar_idiom(rng: &mut Rng, cfg: &GenCfg, k: usize) -> Vec<Rule> {
     let mut rules = gen_grammar(rng, cfg);
     let names: Vec<String> = rules.iter().map(|r| r.name.clone()).collect();
     let later: Vec<String> = names.iter().skip(1).filter(|n| *n != "WHITESPACE" && *n != "COMMENT" && *n != "wsi" && *n != "txt").cloned().collect();
-    let k = k % 11;
+    let k = k % 12;
+    let k = if k == 11 && !cfg.builtin_names { 4 } else { k };
     let k = if (k == 8 || k == 9) && !(cfg.extras && cfg.tag_shapes && cfg!(feature = "extras")) { k - 4 } else { k };
     let k = if k == 10 && !cfg.stack_ops { 3 } else { k };
     let k = if !cfg.stack_ops && k < 3 { 3 + k % 5 } else { k };
@@ -375,6 +376,16 @@ pub fn gen_grammar_idiom(rng: &mut Rng, cfg: &GenCfg, k: usize) -> Vec<Rule> {
             for _ in 0..npush { e = Expr::Seq(bx(Expr::Push(bx(s(rng)))), bx(e)); }
             rules[0].ty = *rng.pick(&[RuleType::Atomic, RuleType::Atomic, RuleType::CompoundAtomic, RuleType::Normal]);
             e }
+        // a user rule named like a basic ASCII built-in next to a composite built-in that "contains" it: the grammar's rule
+        // is used where its name is written, never inside the composite built-in
+        11 => { let (user, comps): (&str, &[&str]) = *rng.pick(&[("ASCII_DIGIT", &["ASCII_ALPHANUMERIC", "ASCII_HEX_DIGIT"][..]), ("ASCII_ALPHA_LOWER", &["ASCII_ALPHA", "ASCII_ALPHANUMERIC"][..]),
+                ("ASCII_ALPHA_UPPER", &["ASCII_ALPHA", "ASCII_ALPHANUMERIC"][..]), ("ASCII_ALPHA", &["ASCII_ALPHANUMERIC"][..]), ("ASCII_NONZERO_DIGIT", &["ASCII_DIGIT", "ASCII_HEX_DIGIT"][..])]);
+            if !names.iter().any(|n| n == user) {
+                let body = match rng.below(3) { 0 => Expr::Seq(bx(s(rng)), bx(s(rng))), 1 => Expr::Str("c".into()), _ => Expr::Seq(bx(Expr::Str("x".into())), bx(Expr::Opt(bx(s(rng))))) };
+                rules.push(Rule { name: user.into(), ty: *rng.pick(&[RuleType::Normal, RuleType::Normal, RuleType::Silent, RuleType::Atomic]), expr: body }); }
+            let comp = Expr::Ident(rng.pick(comps).to_string());
+            let head = match rng.below(3) { 0 => Expr::RepOnce(bx(comp)), 1 => Expr::Seq(bx(comp.clone()), bx(Expr::Opt(bx(comp)))), _ => Expr::Rep(bx(Expr::Choice(bx(Expr::Ident(user.into())), bx(comp)))) };
+            Expr::Seq(bx(head), bx(Expr::Opt(bx(s(rng))))) }
         7 => { let e = if !later.is_empty() && rng.chance(1, 2) { Expr::Ident(rng.pick(&later[..]).clone()) } else { s(rng) }; let rest = s(rng);
             rules[0].ty = *rng.pick(&[RuleType::Silent, RuleType::NonAtomic, RuleType::Normal, RuleType::Atomic]);
             Expr::Choice(bx(Expr::Seq(bx(e.clone()), bx(rest))), bx(e)) }
